@@ -3,7 +3,7 @@
    Oracles (Section variables, trusted base): z_repr = Python's str(int); float_parse = Python's float(str);
    isalnum_char = str.isalnum per character.  Hypotheses on them are explicit premises of C16_number. *)
 From Coq Require Import ZArith String Ascii List Bool.
-Require Import V.Base.PyVal V.Model.SqlLex V.Gen.Params_gen V.Proofs.C16_proofs.
+Require Import V.Base.PyVal V.Model.SqlLex V.Gen.Params_gen V.Model.Interp V.Gen.Interp_gen V.Proofs.C16_proofs.
 Open Scope string_scope.
 
 Section Statements.
@@ -48,7 +48,27 @@ Proof. exact (format_unquoted z_repr float_parse isalnum_char). Qed.
 Theorem C16_yesno : forall dflt v, is_value v -> v <> PNone ->
   fv (PStr "yesno") dflt v = Ret (PStr "TRUE") \/ fv (PStr "yesno") dflt v = Ret (PStr "FALSE").
 Proof. exact (format_yesno z_repr float_parse isalnum_char). Qed.
+
+(* a filter `<text a>{{ p }}<text b>` with a string parameter: the interpolated filter is the text a, ONE string literal whose content is
+   the value, the text b -- for every value and every surrounding text (b not starting with a quote) *)
+Theorem C16_filter_one_literal : forall dflt v a b raw n fmt t, is_value v -> v <> PNone ->
+  (match b with String c _ => Ascii.eqb c quote = false | EmptyString => True end) ->
+  fv (PStr "string") dflt v = Ret (PStr t) -> assoc_s fmt n = Some t ->
+  interpolate_model fmt (cons (Lit a) (cons (Hole raw n) (cons (Lit b) nil))) = a ++ t ++ b /\ one_literal (text_of z_repr v) t b.
+Proof.
+  intros dflt v a b raw n fmt t Hv Hn Hb Hf Ha. split.
+  - unfold interpolate_model. cbn [map fill String.concat]. rewrite Ha. reflexivity.
+  - destruct (C16_string dflt v b Hv Hn Hb) as (t' & Ht' & Hl). rewrite Hf in Ht'. injection Ht' as <-. exact Hl.
+Qed.
 End Statements.
+
+(* TIE BY REGENERATION: Gen/Interp_gen.v holds what ParameterSet.interpolate returns on 40 scripted scenarios (templates with 0-2 holes,
+   repeated / unknown / adjacent holes, `{{` inside literal text; values that themselves contain `{{ q }}` placeholders), extracted from
+   parameter.py on every run by executing interpolate / format / get from their ASTs (translator/gen_interp.py, fail closed, validated
+   against CPython).  On every scenario the one-pass model returns the same text: inserted values are not scanned again, every declared
+   hole is filled exactly once with the formatted value, other text is untouched. *)
+Theorem C16_interpolate_table : forallb interp_row_ok interp_rows = true.
+Proof. vm_compute. reflexivity. Qed.
 
 (* non-vacuity / regression anchors *)
 Example C16_attack_string_is_one_literal :
